@@ -35,7 +35,7 @@ def gen_program(rng, typ, L):
         r = rng.random()
         if typ == 'Quantile' or r < 0.7:
             reg = 0 if typ == 'Quantile' else rng.randrange(3)
-            k = rng.randint(1, 3)
+            k = rng.randint(1, 6) if typ == 'Quantile' else rng.randint(1, 3)
             xs = []
             for _ in range(k):
                 x = rng.choice(vals)
@@ -142,6 +142,9 @@ def shard(desc):
     for i in range(desc['nprog']):
         typ = rng.choice(desc['types'])
         L = rng.randint(1, desc['maxlen'])
+        if typ == 'Quantile':
+            # long enough for a restored marker state to influence later marker moves
+            L = rng.randint(3, max(desc['maxlen'], 40))
         edges = None
         params = []
         if typ in HISTS:
@@ -149,7 +152,7 @@ def shard(desc):
         else:
             ops = gen_program(rng, typ, L)
             if typ == 'Quantile':
-                params = [rng.choice([0.0, 0.25, 0.5, 0.9, 1.0, rng.random()])]
+                params = [rng.choice([0.0, 0.25, 0.5, 0.9, 1.0, 0.1, 0.3, 0.7, rng.random(), rng.random()])]
                 # make streams long enough to cross the 5-observation boundary often
         base = Case('%s-%d' % (desc['name'], cid), typ, params)
         cid += 1
